@@ -355,3 +355,29 @@ Proof.
               (sim_log_body p1 d1 s1 g1) (sim_log_body p2 d2 s2 g2) R1 R2) as [[H _]|[H _]]; [left | right];
     rewrite run_cons, <- !ser_log; exact H.
 Qed.
+
+(* Round 4: the annotations file of ANY context directory cp — the top level (cp = []), subcontexts/<s>
+   (cp = cdir (Some s), where Context._store_model of a subcontext, store_final_model_entry and
+   store_input_model_entry write their descriptions) and subcontexts of subcontexts at every depth.  For ALL cp,
+   names and texts (equal names included), ALL states in which the directory cp exists and ALL schedules (the two
+   system calls of Path.touch(annotations.lock) are steps, the locked read / write annotations.tmp / os.replace is
+   one step: C15): when both writers have stopped, the file system is, path by path, the one the model programs
+   store_annotation_at leave in one of the two serial orders, and each call returned or raised (e.g. no
+   annotations file) exactly as in that order.  No update of a subcontext's annotations file is lost. *)
+Theorem context_annotation_writers_serializable :
+  forall (cp : path) (n1 a1 n2 a2 : str) (f0 : fs) (sched : list bool),
+    is_dir f0 cp = true ->
+    let w1 := store_annotation_at cp n1 a1 in
+    let w2 := store_annotation_at cp n2 a2 in
+    let s := lcrun (annot_lock_at cp) (annot_body_at cp n1 a1) (annot_body_at cp n2 a2) sched f0 in
+    lrunning (l_p1 s) = false -> lrunning (l_p2 s) = false ->
+    ((forall p, lookup (l_fs s) p = lookup (runp w2 (runp w1 f0)) p)
+     /\ lres (l_p1 s) = Some (resp w1 f0) /\ lres (l_p2 s) = Some (resp w2 (runp w1 f0)))
+    \/ ((forall p, lookup (l_fs s) p = lookup (runp w1 (runp w2 f0)) p)
+        /\ lres (l_p2 s) = Some (resp w2 f0) /\ lres (l_p1 s) = Some (resp w1 (runp w2 f0))).
+Proof.
+  intros cp n1 a1 n2 a2 f0 sched Hd w1 w2 s R1 R2.
+  assert (Hp : parent_ok f0 (annot_lock_at cp) = true) by (unfold annot_lock_at; rewrite parent_ok_snoc; exact Hd).
+  exact (locked_writers_lemma (annot_lock_at cp) (annot_body_at cp n1 a1) (annot_body_at cp n2 a2) f0 Hp sched
+           (sim_annot_body_at cp n1 a1) (sim_annot_body_at cp n2 a2) R1 R2).
+Qed.
